@@ -26,16 +26,19 @@ Proof.
   destruct (row name) as [j|] eqn:E; [|discriminate]. inversion H; subst. exists name. exact E.
 Qed.
 
+Lemma row_of_lt names x i : row_of names x = Some i -> (i < length names)%nat.
+Proof. unfold row_of. destruct (mangled x); [discriminate|]. apply index_of_lt. Qed.
+
 Lemma stmt_rows_declared names eq y i k0 (e : sexpr) :
-  stmt_of_equation (fun x => index_of x names) eq = Some (y, SAssign i k0 e) ->
+  stmt_of_equation (row_of names) eq = Some (y, SAssign i k0 e) ->
   (i < length names)%nat /\ forall x k, In (x, k) (expr_reads string e) -> (x < length names)%nat.
 Proof.
   unfold stmt_of_equation. intros H.
   destruct (stmt_of_tokens_reads _ _ _ _ _ _ H) as [Hy Hr].
-  split; [eapply index_of_lt; exact Hy|]. intros x k Hin.
-  assert (Hs : In (Some (x, k)) (tok_reads (fun x => index_of x names) (lex_items LNone (scan_items eq)))).
+  split; [eapply row_of_lt; exact Hy|]. intros x k Hin.
+  assert (Hs : In (Some (x, k)) (tok_reads (row_of names) (lex_items LNone (scan_items eq)))).
   { rewrite Hr. unfold somes. right. apply in_map. exact Hin. }
-  destruct (tok_reads_rows _ _ _ _ Hs) as [nm Hn]. eapply index_of_lt; exact Hn.
+  destruct (tok_reads_rows _ _ _ _ Hs) as [nm Hn]. eapply row_of_lt; exact Hn.
 Qed.
 
 Lemma forall2_in_r' {A B} (R : A -> B -> Prop) l out b : Forall2 R l out -> In b out -> exists a, R a b.
@@ -53,7 +56,7 @@ Proof.
   destruct (split_M script) as [stmts [e|]]; [discriminate|]. intros H.
   destruct (program_order _ _ _ _ H) as [_ HF].
   assert (G : forall st, In st p -> exists n eq i k0 e,
-              stmt_of_equation (fun x => index_of x names) eq = Some (n, st) /\ st = SAssign i k0 e).
+              stmt_of_equation (row_of names) eq = Some (n, st) /\ st = SAssign i k0 e).
   { intros st Hin. destruct (forall2_in_r' _ _ _ _ HF Hin) as (s & n & eq & i & k0 & e & _ & _ & H1 & H2 & _).
     exists n, eq, i, k0, e. split; assumption. }
   intros x k Hin. unfold prog_terms in Hin. apply in_app_or in Hin as [Hin|Hin].
